@@ -95,6 +95,7 @@ class C09(Check):
         "watchdog. Oracle: returned => records == input; fault => must raise; never quiescent; untouched pre-existing "
         "paths; no valid catalog left after a failed creation; sequential and parallel agree. "
         "non-trivial = the fault was actually planted (or control); distinct = (fault, position, source, workers)"
+        ' Further faults: compact integer index columns, zero-weight patch, file-size limits (RLIMIT_FSIZE), failing overwrite over a valid catalog, directory condition + data fault in one call, damaged Parquet row group, file sources for the directory faults.'
     )
     assumptions = [
         "a hang is a process group in which every process sleeps and no CPU time is consumed for 3 s (6 samples)",
